@@ -62,3 +62,12 @@ func init() {
 		Rule:        "enumeration of all call sequences (length 1 and 2 over the full alphabet of 9 constructors x parameter sets x shapes; length 3 (thorough 4) over a reduced alphabet) after seeding gonum's global source; conformance oracle: the elements returned by the n-th call are, as a multiset and bit-for-bit, the next prod(shape) draws of a private gonum Uniform/Normal with the EXACT parameters of the statement on an identically seeded source (decides shape, tracked status, support, scale constants, freshness and per-element independence of draws exactly); Full holds the constant. If an implementation stops following that stream the oracle abstains (skipped) only when support, pairwise-distinctness and 4096-sample moments (6 sigma) all hold. Non-trivial: sequences of >= 2 calls or more than one element.",
 		Assumptions: []string{"gonum's Uniform/Normal samplers and x/exp/rand are the trusted base for distribution shape and convergence of moments", "rand.Seed owns the only randomness"}})
 }
+
+func init() {
+	register(&Check{ID: "C13", Fn: checkC13,
+		Rule:        "bounded-exhaustive: MSE/BCE batch 1..4, CE [1..3,1..3]; predictions from {0,1e-13,0.2,0.5,0.9,1-1e-13,1} x targets {0,0.3,1}: all tuples for <=2 (thorough 3) elements, else every class pair at every position pair; prediction supplied as a tracked leaf and through 6 value-preserving upstream programs (Scale(1), reconvergent 0.5x+0.5x, Mul(ones), Sub(zeros), Concat+Slice, Reshape twice) so that exact classes reach an interior node; targets tracked and untracked; plus every <=2-operation program over two leaves -> Sigmoid -> loss. Oracle: analytic derivative of the statement (0 where clipped), prediction's shape, chain rule to every upstream tensor, untracked inputs nil; a tracked target at a clipping kink is only required to have a finite gradient of its shape. Non-trivial: prediction is an interior node.",
+		Assumptions: []string{"analytic loss VJPs validated against finite differences (selftest)", "value classes; predictions exactly at the two clipping bounds excluded as in the statement"}})
+	register(&Check{ID: "C15", Fn: checkC15,
+		Rule:        "bounded-exhaustive: Relu, LeakyRelu(0.01, 0.3, -0.5), Sigmoid, Tanh, Softmax(every dim) on every shape of rank 0..3 (thorough 4) over {1,2,3}; two generic assignments and two rotations of the value classes {-700,-20,-1,0,1e-9,1,20,700}; activation input given as leaf and through 6 value-preserving upstream programs; activation output used as root, through Scale(3), and through a non-uniform weighting; value classes exhaustively over 1..2 (3) element inputs; every <=2-operation upstream program. Oracle: derivative formulas of the statement; at an input of exactly 0 the derivative used by (Leaky)Relu is inferred from the observed input gradient and only required to lie between the one-sided derivatives, then propagated consistently upstream; finite; input's shape. Softmax with normalised width > 1 is recognised as the listed finding broadcast_avg only if it equals the mean-model exactly.",
+		Assumptions: []string{"analytic activation VJPs validated against finite differences (selftest)", "bounded shapes and value classes"}})
+}
